@@ -21,7 +21,7 @@ func init() {
 		Explanation: "Static decision of the structural clauses of C05 (mask rules at the structural level; for regular-expression rules only stated-belief checks — the soundness of the regex heuristics is NOT decided). " +
 			"R1: the character set at which findShortcut splits contains every character to which the pattern compiler gives a non-literal meaning. R2: the shortcut is computed after the last rewrite of the pattern field and only the constructor writes that field. " +
 			"R3: the stored shortcut is strings.ToLower of a piece of the pattern on every path, it is derived from the rule's own pattern, and the pre-check tests the lower-cased URL field. R4: the regex heuristic bails out on '?', " +
-			"its splitter class contains every RE2 metacharacter, and R5: its bracket-stripping expressions are greedy (a lazy match leaves the alternation of a nested group exposed as if it were mandatory text). R7: the strippers whose expression consumes the character in front of the bracket are applied to placeholder+text, the placeholder consisting of splitter characters (otherwise a leading group is not stripped). R8 (table): the chain of constants of the heuristic (bail-out tests, stripper expressions and templates in their order, splitter) is interpreted inside the checker on 13 sample expressions, one per operator of the property's grammar, each with witness URLs it accepts; every candidate piece must be contained in every witness or the function must bail out. R8 has 20 sample rows (class escapes, two escapes in a row, hexadecimal, octal and one-letter Unicode-class escapes, escaped backslash, alternation, groups, classes, x*, x+, x{m,n}, x{0}, x{0,}, x?); the last stage may be a regexp split on a constant class or a scan cutting at strings.IndexAny(text, K) with constant K (R4 then reads the metacharacter coverage off K). R9 imports C17.R3/R4: the text the pattern runs on and the text the shortcut is searched in are the same capped URL up to letter case. R1 also reads the split set off a cutting scan in a shared helper.",
+			"its splitter class contains every RE2 metacharacter, and R5: its bracket-stripping expressions are greedy (a lazy match leaves the alternation of a nested group exposed as if it were mandatory text). R7: the strippers whose expression consumes the character in front of the bracket are applied to placeholder+text, the placeholder consisting of splitter characters (otherwise a leading group is not stripped). R8 (table): the chain of constants of the heuristic (bail-out tests, stripper expressions and templates in their order, splitter) is interpreted inside the checker on 13 sample expressions, one per operator of the property's grammar, each with witness URLs it accepts; every candidate piece must be contained in every witness or the function must bail out. R8 has 20 sample rows (class escapes, two escapes in a row, hexadecimal, octal and one-letter Unicode-class escapes, escaped backslash, alternation, groups, classes, x*, x+, x{m,n}, x{0}, x{0,}, x?); the last stage may be a regexp split on a constant class or a scan cutting at strings.IndexAny(text, K) with constant K (R4 then reads the metacharacter coverage off K). R9 imports C17.R3/R4: the text the pattern runs on and the text the shortcut is searched in are the same capped URL up to letter case. R1 also reads the split set off a cutting scan in a shared helper. R8 has 23 rows since round 9 (an alternation between two groups, two character classes, two counted repetitions must not be hidden by the greedy strippers) and interprets bail-outs that test a side chain of constant replacements (strings.Contains and strings.ContainsAny).",
 		Trusted:     []string{"regexp/syntax parses the constant expressions the way regexp.MustCompile does"},
 		Assumptions: []string{"for regular-expression rules, 'pattern accepts u => lower(u) contains the shortcut' is a language inclusion per rule and is outside static reach (DESIGN.md section 6); two unsound shapes on today's tree (top-level alternation, class escapes) are known and not reported by any rule here"},
 	})
